@@ -520,7 +520,7 @@ def segs_of(p):
 
 
 def validate(run, traces, cfg, modon, name, workers=4):
-    res = run.tlc("Trace_Containment", trace_cfg(cfg, modon), name=name, workers=workers, timeout=600, count=False,
+    res = run.tlc("Trace_Containment", trace_cfg(cfg, modon), name=name, workers=workers, timeout=600, count=False, heap="2g",
                   env={"C09_TRACES": "traces.json"}, extra_files={"traces.json": json.dumps(traces)}, expect_ok=False)
     if res.violated or not res.completed:
         raise MachineryError("trace validation %s failed: %s\n%s" % (name, res.violated, res.out[-2000:]))
@@ -577,15 +577,15 @@ def check(run):
         futs = {}
         for (name, cfg, maxsegs, segs, ctxs, modon, modes_upto, nw) in plans:       # the long ones first
             futs[name] = ex.submit(run.tlc, "Enum_Containment", enum_cfg(maxsegs, cfg, ctxs, modon, segs), name=name,
-                                   timeout=2400, workers=wk(nw), count=False)
+                                   timeout=2400, workers=wk(nw), count=False, heap="3g")
         for (name, cfg, ctxs) in mc_jobs:
             futs[name] = ex.submit(run.tlc, "MC_Containment", mc_cfg(mc_bound, cfg, ctxs), name=name, coverage=True,
-                                   timeout=1500, workers=wk(3), count=False)
+                                   timeout=1500, workers=wk(3), count=False, heap="2g")
         # witness: some enumerated URI does make the probe hit a file outside the roots (so the refusal in
         # Template.__init__ is what keeps it out) -- a negated invariant that must be violated
         futs["mc-witness"] = ex.submit(run.tlc, "MC_Containment",
                                        mc_cfg(2, "A", MAIN_CTX).replace("INVARIANT OutsideHitRefused\n", "INVARIANT NoOutsideHit\n"),
-                                       name="mc-witness", timeout=600, workers=wk(2), count=False)
+                                       name="mc-witness", timeout=600, workers=wk(2), count=False, heap="1g")
         results = {n: f.result() for n, f in futs.items()}
     for n, res in results.items():
         if n != "mc-witness":
